@@ -8,4 +8,4 @@ d=/tmp/eval$slot
 rm -rf $d; mkdir -p $d
 rsync -a --exclude target /repo/ $d/repo/
 rsync -a --exclude fuzz/target --exclude .build/fuzz-run --exclude .build/logs --exclude .build/fuzz /verif/ $d/verif/
-unshare -m bash -c "mount --bind $d/repo /repo && mount --bind $d/verif /verif && cd /verif && for x in $*; do IFS=: read c n ks <<< \"\$x\"; python3 /verif/tools/seed2.py \$c \$n --no-confirm --tier $tier \${ks//,/ }; done"
+unshare -m bash -c "mount --bind $d/repo /repo && mount --bind $d/verif /verif && cd /verif && for x in $*; do IFS=: read c n ks <<< \"\$x\"; python3 /verif/tools/seed2.py \$c \$n --base ${SEED_BASE:-/tmp/seed2} --no-confirm --tier $tier \${ks//,/ }; done"
